@@ -7,6 +7,7 @@ import RapidProofs.Shrink
 import RapidModel.Persist
 import RapidProofs.RoundTrip
 import RapidProofs.TranslatedPersistEq
+import RapidProofs.TranslatedCheckEq
 
 namespace Rapid.C06
 
@@ -51,6 +52,20 @@ theorem replayed_first (p : Prog) (checks : Nat) (seed : UInt64) (files : List F
     (doCheck p checks seed files early cands).seeds = [] ∧ (doCheck p checks seed files early cands).valid = 0 ∧
     (doCheck p checks seed files early cands).buf = r.2.1 := by
   simp [doCheck, h]
+
+/-- **the source's `doCheck` replays a usable fail file before anything else**: when one of the files it looks at (the one named
+    with `-rapid.failfile` first, then what the glob finds, in that order) holds a test case that still fails, the source hands
+    back "0 valid, 0 invalid" — no random test case was generated —, the name of that file, its words and the errors of the two
+    replays -/
+theorem source_failfile_replayed_first (E : Go.CEnv) (checks : Nat) (hc : checks < 2 ^ 62) (seed : UInt64) (failfile : String)
+    (globf : Bool) (fuel : Nat) (hl : (Go.failFileNames failfile globf E.found).length < 2 ^ 62)
+    (hfuel : (Go.failFileNames failfile globf E.found).length < fuel)
+    (i : Nat) (b : List UInt64) (e1 e2 : Option Err)
+    (h : firstFailFile E.p ((Go.failFileNames failfile globf E.found).map E.file) 0 = some (i, b, e1, e2)) :
+    (Go.CM.run E (Translated.doCheck (Int64.ofNat checks) seed failfile globf fuel) none).1 =
+      .ok (0, 0, false, 0, (Go.failFileNames failfile globf E.found).getD i "", b, e1, e2) := by
+  rw [Go.tr_doCheck E checks hc seed failfile globf fuel hl hfuel]
+  simp [Go.dcOut, doCheck, h]
 
 /-- …and replaying the persisted words reproduces the persisted test case exactly -/
 theorem persisted_case_replays (p : Prog) (src : Src) (h : (checkOnce p src TS.fresh).overran = false) :
